@@ -575,5 +575,58 @@ Fixpoint c5_run (prev : csnap) (now : N) (faults : list (peer * conn)) (ops : li
 
 Definition oracle_C05_faults (x : case) : bool := c5_run csnap0 0 [] (snd (fst x)) (snd x).
 
-Definition oracle_C05 (x : case) : bool := oracle_C05_first x && oracle_C05_faults x.
+(* C05, third clause: "every connected peer is sent a full wantlist at least once per 30 s refresh period".  The refresh
+   period is the client's interval timer under the virtual clock: it fires at the first poll at or after its deadline and
+   is re-armed for 30 s from that poll; the timer itself is not observable, its deadline is a function of the poll times.
+   Every peer the implementation holds state for when it fires is OWED a full wantlist; the debt is paid by a full
+   wantlist to that peer and cancelled when the peer's state is dropped (its next session starts with a full one).  A
+   poll that finds an owing peer Ready (in the implementation's own snapshot before the poll) with a connection must
+   send it a wantlist, and that wantlist must be full. *)
+Definition snap_conns (s : csnap) (p : peer) : list conn :=
+  match s with
+  | CSnap _ _ _ peers _ _ _ _ _ =>
+      match find (fun ps => match ps with PSnap q _ _ _ _ _ _ => q =? p end) peers with
+      | Some (PSnap _ conns _ _ _ _ _) => conns
+      | None => []
+      end
+  end.
+Definition is_ss_ready (o : option sending_state) : bool := match o with Some SsReady => true | _ => false end.
+
+Fixpoint c5r_run (prev : csnap) (now deadline : N) (owed : list peer) (ops : list cop) (obs : list cobs) : bool :=
+  match ops, obs with
+  | op :: ops', ob :: obs' =>
+      let now' := match op with CAdvance ms => now + ms | _ => now end in
+      match op with
+      | CPoll _ =>
+          let fired := deadline <=? now' in
+          let deadline' := if fired then now' + SEND_FULL_INTERVAL else deadline in
+          let owed1 := if fired then owed ++ filter (fun p => negb (n_mem p owed)) (snap_peers prev) else owed in
+          let fulls := flat_map (fun o => match o with OSendWantlist p _ true _ => [p] | _ => [] end) (fst ob) in
+          let ok := forallb (fun p => if is_ss_ready (snap_ss prev p) && negb (match snap_conns prev p with [] => true | _ => false end)
+                                      then n_mem p fulls else true) owed1 in
+          let owed2 := filter (fun p => negb (n_mem p fulls) && n_mem p (snap_peers (snd ob))) owed1 in
+          ok && c5r_run (snd ob) now' deadline' owed2 ops' obs'
+      | _ =>
+          let owed1 := filter (fun p => n_mem p (snap_peers (snd ob))) owed in
+          c5r_run (snd ob) now' deadline owed1 ops' obs'
+      end
+  | _, _ => true
+  end.
+Definition oracle_C05_refresh (x : case) : bool := c5r_run csnap0 0 SEND_FULL_INTERVAL [] (snd (fst x)) (snd x).
+
+(* how often the refresh clause was exercised: some poll found an owing peer *)
+Fixpoint c5r_count (prev : csnap) (now deadline : N) (ops : list cop) (obs : list cobs) : bool :=
+  match ops, obs with
+  | op :: ops', ob :: obs' =>
+      let now' := match op with CAdvance ms => now + ms | _ => now end in
+      match op with
+      | CPoll _ => if (deadline <=? now') && negb (match snap_peers prev with [] => true | _ => false end) then true
+                   else c5r_count (snd ob) now' (if deadline <=? now' then now' + SEND_FULL_INTERVAL else deadline) ops' obs'
+      | _ => c5r_count (snd ob) now' deadline ops' obs'
+      end
+  | _, _ => false
+  end.
+Definition refresh_exercised (x : case) : bool := c5r_count csnap0 0 SEND_FULL_INTERVAL (snd (fst x)) (snd x).
+
+Definition oracle_C05 (x : case) : bool := oracle_C05_first x && oracle_C05_faults x && oracle_C05_refresh x.
 Definition oracle (x : case) : bool := oracle_all x && oracle_C05 x.
